@@ -438,7 +438,7 @@ func (e *Engine) indexByte(at func(*Term) *Term, n *Term, c *Term) *Term {
 func (e *Engine) nativeByPattern(fn *ssa.Function) nativeFn {
 	name := fn.String()
 	// logger calls: no output
-	if strings.HasPrefix(name, "(*github.com/cenkalti/log.") || strings.HasPrefix(name, "(github.com/cenkalti/log.") || strings.HasPrefix(name, "github.com/cenkalti/log.") {
+	if strings.HasPrefix(name, "(*github.com/cenkalti/log.") || strings.HasPrefix(name, "(github.com/cenkalti/log.") {
 		return func(e *Engine, g *G, cs *callSite, a []Value) (Value, bool) {
 			rs := fn.Signature.Results()
 			switch rs.Len() {
